@@ -90,7 +90,9 @@ func (w *world) tick() bool {
 	w.m.Mem.EndMachineCycle()
 	w.t++
 	iff := w.m.Mem.Read(0xff0f) & 0x03
-	w.m.Mem.Write(0xff0f, 0)
+	if iff != 0 {
+		w.m.Mem.Write(0xff0f, 0)
+	}
 	p, on := w.ref.Tick()
 	var vb, st, may bool
 	if on {
